@@ -828,3 +828,17 @@ func (m *Model) callsAnyOf(fn *ssa.Function, set map[*ssa.Function]bool) bool {
 	}
 	return false
 }
+
+// namedType: the named type pkg.Name of the module (nil if absent).
+func (m *Model) namedType(pkg, name string) *types.Named {
+	p := m.ByPath[fullPkg(pkg)]
+	if p == nil {
+		return nil
+	}
+	tn, ok := p.Types.Scope().Lookup(name).(*types.TypeName)
+	if !ok {
+		return nil
+	}
+	nt, _ := tn.Type().(*types.Named)
+	return nt
+}
